@@ -9,9 +9,10 @@ V=$(pwd)
 cd "$WT"
 git diff -- rich > patch.diff
 timeout 300 /venv/bin/python demo.py > /tmp/demo_with.txt 2>&1; RC_WITH=$?
-git stash -q
+# (no `git stash`: the stash is shared by all worktrees of the repository)
+git checkout -q -- rich
 timeout 300 /venv/bin/python demo.py > /tmp/demo_without.txt 2>&1; RC_WITHOUT=$?
-git stash pop -q
+git apply patch.diff
 TESTS=$(timeout 900 /venv/bin/python -m pytest -q -p no:cacheprovider tests 2>&1 | tail -1)
 echo "demo with change: rc=$RC_WITH; without: rc=$RC_WITHOUT; tests: $TESTS"
 mkdir -p "$V/seeded/$ID"
